@@ -135,6 +135,11 @@ Ser(ctx, T, v) ==
          \* the first alternative whose class matches
          LET hit == {i \in DOMAIN T.alts : InstOf(ctx, T.alts[i], v)} IN
          IF hit = {} THEN SErr("union")
+         \* a plain dict cannot be told from a TypedDict at run time: when another alternative (Any, a
+         \* mapping) takes dicts too, which one serializes it is left unspecified
+         ELSE IF v.k = "dict" /\ Cardinality(hit) > 1
+                 /\ \E i \in hit : T.alts[i].k = "obj" /\ ctx.C[T.alts[i].cls].kind = "typeddict"
+              THEN SErr("typeddict-or-mapping")
          ELSE Ser(ctx, T.alts[CHOOSE i \in hit : \A j \in hit : i <= j], v)
     [] T.k = "dunion"  ->
          LET hit == {i \in DOMAIN T.alts : InstOf(ctx, T.alts[i], v)} IN
